@@ -56,6 +56,7 @@ def main():
     prop = args.prop.upper()
     tier = "thorough" if args.tier == "thorough" else "quick"
     seed = int(os.environ.get("VERIF_SEED", "0") or 0)
+    os.environ["PYVC_TIER"] = tier
     if tier == "thorough":
         os.environ.setdefault("PYVC_TIMEOUT_MS", "60000")
     t_start = time.time()
